@@ -14,6 +14,7 @@ LEVEL_NOTE = "necessary conditions only"
 def run(ctx):
     from . import guardvocab
     guardvocab.G0(ctx, effects={'track', 'release', 'join', 'acquire'})
+    guardvocab.G1(ctx, effects={'track', 'release', 'join', 'acquire'})
     from . import races
     races.R1(ctx)
     races.R2(ctx)
